@@ -297,8 +297,9 @@ impl<'a> Binder<'a> {
                             let offset = self.calculate_column_offset(entry.scope_index);
 
                             for (col_idx, col) in entry.schema.iter_columns().enumerate() {
-                                // Skip internal row_id column (always column 0)
-                                if col_idx == 0 {
+                                // Skip internal row_id column (column 0 of a base table; derived
+                                // tables and CTEs have no hidden column)
+                                if col_idx == 0 && entry.table_id.is_some() {
                                     continue;
                                 }
 
